@@ -13,8 +13,26 @@ ASSUME = ["google.golang.org/protobuf v1.25.0 (dynamicpb) validates the specific
           "scalar value ids are lifted to the boundary tables in harness/protoshape.go"]
 
 
+def deep_probe(ck):
+    # open finding F-C07-1: a message nested a few hundred thousand levels deep into a recursive target overflows the stack
+    # (runs alone, with a 64 MiB stack cap: it is expected to die)
+    import subprocess
+    probe = subprocess.run([ck.binary, "c07deep"], stdout=subprocess.PIPE, stderr=subprocess.PIPE, text=True, env=vlib.GOENV, timeout=600)
+    if "C07DEEP-OK" in probe.stdout:
+        return
+    if "stack overflow" in probe.stderr or "goroutine stack exceeds" in probe.stderr:
+        if ck.findings.get("F-C07-1", {}).get("status") == "open":
+            ck.known["F-C07-1"] = 1
+            return
+        ck.violations.append(({"t": "div", "prop": PROP, "api": "proto.Unmarshal(400000 nested messages, *deepNode)", "want": "an error or a value",
+                               "got": "fatal error: stack overflow", "case": {"kind": "c07deep"}}, 1))
+        return
+    raise vlib.Infra("c07deep probe: neither a result nor a stack overflow: " + probe.stderr[-800:])
+
+
 def run(tier, seed):
-    return protocommon.run(PROP, tier, seed, RULE + varint.RULES.get(PROP, ""), ASSUME, shards=4, isolate=(PROP in ("C03", "C07")), extra_vec=(varint.both(wirealloc.add, varint.adder(tier)) if PROP == "C07" else None))
+    return protocommon.run(PROP, tier, seed, RULE + varint.RULES.get(PROP, ""), ASSUME, shards=4, isolate=(PROP in ("C03", "C07")), extra_vec=(varint.both(wirealloc.add, varint.adder(tier)) if PROP == "C07" else None),
+                           post=(deep_probe if PROP == "C07" else None))
 
 
 def replay(path, seed):
